@@ -12,6 +12,7 @@ import XtModel.Model.MsgpackSize
 import XtModel.Model.MsgpackCodec
 import XtModel.Model.CliWire
 import XtModel.Model.Stream
+import XtModel.Model.Bridge
 
 /-!
 Native driver: one case per input line, one answer per output line
@@ -554,6 +555,82 @@ def stream (fs : List String) : String :=
     | _, _, _, _ => "bad-case"
   | _ => "bad-case"
 
+/-! ### bridge: `j2m <hex> <slice|reader>`, `m2j <hex> <slice|reader>`
+
+Answer: `<verdict> <output hex>`.  Floats go through `Bridge.markerIO`: a JSON
+float becomes the binary64 with bits 0, a finite MessagePack float is written
+as `F` (the harness masks the implementation's output the same way).  A
+MessagePack document with a float in key position makes the output field `fk`
+(a quoted float cannot be told from a string in the implementation's output).
+The source error kind is reported for JSON sources only: for MessagePack
+sources the kind is the `msgdecode` engine's subject, and within one failing
+document a serializer refusal may precede the decoder's failure (not modelled:
+the reference decoder returns no partial value). -/
+namespace BR
+open Xt.Bridge
+
+def modeOf : String → Option Mode
+  | "slice" => some .slice
+  | "reader" => some .reader
+  | _ => none
+
+def serTok : Xt.Serde.SErr → String
+  | .own n => s!"ser:{n}"
+  | .custom m => "ser:custom:" ++ m.replace " " "_"
+
+mutual
+  def hasFloatKey : Xt.Msgpack.MVal → Bool
+    | .arr xs => hasFloatKeyList xs
+    | .map kvs => hasFloatKeyPairs kvs
+    | _ => false
+  def hasFloatKeyList : List Xt.Msgpack.MVal → Bool
+    | [] => false
+    | x :: xs => hasFloatKey x || hasFloatKeyList xs
+  def hasFloatKeyPairs : List (Xt.Msgpack.MVal × Xt.Msgpack.MVal) → Bool
+    | [] => false
+    | (k, v) :: kvs =>
+      (match k with
+       | .f32 _ => true
+       | .f64 _ => true
+       | _ => hasFloatKey k) || hasFloatKey v || hasFloatKeyPairs kvs
+end
+
+def bigInput : Nat := 3000
+
+def bridge (fs : List String) : String :=
+  match fs with
+  | ["j2m", hex, mode] =>
+    match parseHex hex, modeOf mode with
+    | some bs, some m =>
+      let r := json2msgpack markerIO m bs
+      let v := match r.verdict with
+        | .ok => "ok"
+        | .srcJson e => "src:" ++ errName e
+        | .srcMsgpack _ => "src"
+        | .ser e => serTok e
+      v ++ " " ++ toHex r.out
+    | _, _ => "bad-case"
+  | ["m2j", hex, mode] =>
+    match parseHex hex, modeOf mode with
+    | some bs, some m =>
+      -- The model's slice loop re-slices its input for every value (as the code
+      -- does) and is quadratic on `List`s; above `bigInput` bytes the reader
+      -- loop is run instead.  Same answer: `Xt.Props.Fidelity.m2j_slice_answer_eq_reader`
+      -- (same documents, same output, `ok` for the same inputs).
+      let m := if bs.length > bigInput then Mode.reader else m
+      let r := msgpack2json markerIO m bs
+      let v := match r.verdict with
+        | .ok => "ok"
+        | .srcJson _ => "src"
+        | .srcMsgpack _ => "src"
+        | .ser e => serTok e
+      let fk := hasFloatKeyList (msgpackSource m bs).1
+      v ++ " " ++ (if fk then "fk" else toHex r.out)
+    | _, _ => "bad-case"
+  | _ => "bad-case"
+
+end BR
+
 def answer (fs : List String) : String :=
   match fs with
   | "encdetect" :: _ | "reencode" :: _ | "reencstream" :: _ => encoding fs
@@ -570,6 +647,7 @@ def answer (fs : List String) : String :=
   | "cli" :: _ | "noflush" :: _ | "plan" :: _ | "ext" :: _ | "stdinpath" :: _ | "fmtname" :: _ | "pipecheck" :: _
   | "lexopt" :: _ => Xt.CliWire.answer fs
   | "lagok" :: _ | "lagat" :: _ | "loopmodel" :: _ => stream fs
+  | "j2m" :: _ | "m2j" :: _ => BR.bridge fs
   | _ => "bad-engine"
 
 partial def loop (h : IO.FS.Stream) (out : IO.FS.Stream) : IO Unit := do
